@@ -23,6 +23,10 @@ def fam_reports(tier, seed):
             s = b.select("S", [w1, w2], n=1, kind="min")
             b.require(a, select=s)
             b.require(c, worker=w1, delay_in=1)
+            d = b.task("C", "F", dur=3)
+            w3 = b.worker("W3")
+            b.require(d, worker=w3, delay_in=0, early_out=2)
+            b.require(d, worker=w2, delay_in=1, early_out=1)
         elif shape == "cumulative":
             a = b.task("A", "F", dur=2)
             c = b.task("B", "F", dur=2)
